@@ -659,7 +659,11 @@ func (p *Parser) parsePriceDirective(startPos Position) ast.Directive {
 	}
 	dir.Date = *date
 
-	if p.current.Type == TokenCommodity || p.current.Type == TokenText {
+	if p.current.Type == TokenText {
+		// a lower-case commodity word ("P 2024-01-20 hours 1.5 USD") reaches the parser as free text up to the line end
+		p.current = p.lexer.RescanWord(p.current)
+	}
+	if p.current.Type == TokenCommodity && p.current.Value != "" {
 		dir.Commodity = ast.Commodity{
 			Symbol: p.current.Value,
 			Range:  ast.Range{Start: toASTPosition(p.current.Pos)},
